@@ -237,16 +237,12 @@ def encErr : ErrC → String
   | .badKey => "(err bad-key)" | .badArgc => "(err bad-argc)" | .badType => "(err bad-type)"
   | .missingTarget => "(err missing-target)" | .functionError => "(err function-error)"
   | .badTarget => "(err bad-target)" | .other => "(err other)"
+  | .needRegex p t => "(need-regex " ++ p ++ " " ++ t ++ ")"
 
 def encOutcome (enc : α → String) : Outcome α → String
   | .ok v => "(ok " ++ enc v ++ ")"
   | .err e => encErr e
-  | .panic s =>
-    if s.startsWith "need-regex " then
-      match (s.drop 11).toString.splitOn " " with
-      | [p, t] => "(need-regex " ++ p ++ " " ++ t ++ ")"
-      | _ => "(panic)"
-    else "(panic)"
+  | .panic _ => "(panic)"
 
 def encLog (log : List (Call Value)) : String :=
   "(log" ++ String.join (log.map (fun c =>
